@@ -304,6 +304,9 @@ Definition opt_ge (a b : option N) : bool :=
   end.
 
 Inductive side := SNone | SLeft | SRight.   (* which side needs the cast for this column *)
+(* one column: `if left == right` is equality of the FULL DataType (id and metadata: decimal precision/scale,
+   timestamp unit, list element type, struct fields) - the tie to the source is gen/TablesTyping.v
+   setop_full_type_equality; the scores look at the ids only, the output type is one side's full type *)
 Definition unify1 (P : params) (l r : dtype) : option (dtype * side) :=
   if dtype_eqb l r then Some (l, SNone)
   else
@@ -327,3 +330,16 @@ Fixpoint unify_zip (P : params) (ls rs : list dtype) : option (list (dtype * sid
    (until then the binder was [unify_zip] alone) *)
 Definition unify_cols (P : params) (ls rs : list dtype) : option (list (dtype * side)) :=
   if Nat.eqb (List.length ls) (List.length rs) then unify_zip P ls rs else None.
+
+(* SetOpCastRequirement + SetOpPlanner::wrap_cast / generate_cast_expressions: a branch that needs a cast for ANY
+   column gets a projection giving EVERY column the output type (`orig_type == need_type` ? column : cast);
+   a branch that needs none is used as it is *)
+Definition side_is (sd : side) (o : dtype * side) : bool :=
+  match snd o, sd with SLeft, SLeft | SRight, SRight => true | _, _ => false end.
+Definition needs_cast (sd : side) (outs : list (dtype * side)) : bool := existsb (side_is sd) outs.
+Definition branch_after (orig : list dtype) (outs : list (dtype * side)) (needs : bool) : list dtype :=
+  if needs then map (fun p => fst (snd p)) (combine orig outs) else orig.
+(* the casts the projection really contains: (from, to) with from <> to *)
+Definition casts_inserted (orig : list dtype) (outs : list (dtype * side)) (needs : bool) : list (dtype * dtype) :=
+  if needs then filter (fun p => negb (dtype_eqb (fst p) (snd p))) (map (fun p => (fst p, fst (snd p))) (combine orig outs))
+  else [].
